@@ -1299,10 +1299,9 @@ class Interp:
             self.unsupported("method `%s` on %s%s" % (method, type(recv).__name__,
                                                      " " + ty if ty else ""), e)
         newrecv, out = res
-        if newrecv is not None:
-            if place is None:
-                self.unsupported("mutating method `%s` on a temporary" % method, e)
+        if newrecv is not None and place is not None:
             self.write_ref(place, newrecv)
+        # (a `&mut self` method on a temporary: the mutation is dropped with the temporary, as in Rust)
         return out
 
     def e_Macro(self, e):
